@@ -1,39 +1,112 @@
-"""be.* correspondence suites and direct oracles (C18)."""
-import json
+"""be.* correspondence suites and direct oracles (C18).
 
-RULE = ('random emit scripts / raw texts over an alphabet biased to braces and format-like sequences; '
-        'a case is non-trivial when the text contains a brace or a placeholder')
+Suites (each: real stone code in-process, the compiled Lean model through the driver, and a direct oracle
+that evaluates the property itself on the real code):
+
+  suite_format    emit_raw + output_buffer_to_string vs Fmt.escape / Fmt.pyFormat
+  suite_path      exhaustive relative paths x (cwd, root) combos through _relative_output_path,
+                  output_to_relative_path, copy_to_path, SwiftBaseBackend._write_output_in_target_folder
+                  in a scratch tree; oracle = what appears under / next to the output folder
+  suite_emit      random emit scripts on a real CodeBackend (tabs and spaces) vs Emit.runScript; oracle = an
+                  independent Python reference pretty-printer
+  suite_wrap      emit_wrapped_text vs Wrap.wrap; oracle = words preserved in order, prefixes in place
+  suite_manifest_api   random write/copy sequences on a real backend, real mode and manifest mode, vs Manifest.run
+  suite_manifest_backends   every built-in backend x specs x option sets: manifest run vs real run (oracle only)
+"""
+import importlib
+import itertools
+import json
+import os
+import shutil
+import textwrap
+import time
+
+from harness import core
+
+RULE = ('paths: all sequences of <= 4 segments over {a, ., .., d/e, unicode, empty, ..x, out}, with and without trailing '
+        'slash, plus absolute forms, x 7 (cwd, root) combinations (exhaustive); emit scripts: random trees of '
+        'emit/emit_raw/emit_wrapped_text/placeholders/indent/block/generate_multiline_list over an alphabet biased to braces, '
+        'format-like sequences and unicode, ~10% deliberately ill-formed; wrap: random unicode texts x widths -2..90 x '
+        'prefixes; manifest: random write/copy sequences, and every built-in backend x 3 specs x option sets. '
+        'A case is non-trivial when it has a parent/absolute segment, a brace or placeholder, more than one line, '
+        'or writes at least one file')
 
 ALPHABET = ['{', '}', '{{', '}}', '{}', '{0}', '{x}', '{x', 'x}', 'a', 'b', ' ', '\n', 'é', '日本', '%s', '{!r}', '{:>4}', '\\', '"']
+
+EMIT_ERRORS = (AssertionError, KeyError, IndexError, ValueError)
+
+
+def unwire(x):
+    """Undo Driver.Be.wireEscape (U+E000 + 4 hex digits) in every string of a driver reply."""
+    if isinstance(x, str):
+        if '\ue000' not in x:
+            return x
+        out, i = [], 0
+        while i < len(x):
+            if x[i] == '\ue000':
+                out.append(chr(int(x[i + 1:i + 5], 16)))
+                i += 5
+            else:
+                out.append(x[i])
+                i += 1
+        return ''.join(out)
+    if isinstance(x, list):
+        return [unwire(v) for v in x]
+    if isinstance(x, dict):
+        return {k: unwire(v) for k, v in x.items()}
+    return x
+
+
+def drive(ck, reqs):
+    """ck.driver + unwire; retries while a concurrent `lake build` is relinking the shared driver executable."""
+    last = None
+    for _attempt in range(40):
+        try:
+            return [unwire(r) for r in ck.driver(reqs)]
+        except (RuntimeError, OSError) as e:
+            last = e
+            if 'answered' in str(e):
+                raise
+            time.sleep(3)
+    raise last
 
 
 def rand_text(rng, maxlen=8):
     return ''.join(rng.choice(ALPHABET) for _ in range(rng.randint(0, maxlen)))
 
 
-def suite_format(ck):
-    """emit_raw + output_buffer_to_string on the real Backend vs Fmt.escape / Fmt.pyFormat."""
+def _backend_classes():
     from stone.backend import CodeBackend
+    from stone.backends.swift import SwiftBaseBackend
 
-    class B(CodeBackend):
+    class Spaces(CodeBackend):
         def generate(self, api):
             pass
 
+    class Tabs(CodeBackend):
+        tabs_for_indents = True
+
+        def generate(self, api):
+            pass
+
+    class Swift(SwiftBaseBackend):
+        def generate(self, api):
+            pass
+
+    return Spaces, Tabs, Swift
+
+
+# ======================================================================================= be.format (first slice)
+
+def suite_format(ck):
+    """emit_raw + output_buffer_to_string on the real Backend vs Fmt.escape / Fmt.pyFormat."""
+    Spaces, _Tabs, _Swift = _backend_classes()
     n = ck.scale(2000, 40000)
-    cases = []
-    for i in range(n):
-        text = rand_text(ck.rng)
-        cases.append(text)
-    reqs = [{'op': 'be.escape', 'text': t} for t in cases]
-    reqs += [{'op': 'be.format', 'buf': None, 'pos': [], 'named': []} for _ in cases]
-    # real side
+    cases = [rand_text(ck.rng) for _ in range(n)]
     real_esc = []
     real_out = []
     for t in cases:
-        b = B('/nonexistent', [])
-        b.output = []
-        b._append_output(t.replace('{', '{{').replace('}', '}}'))  # placeholder, replaced below
-        b.output = []
+        b = Spaces('/nonexistent', [])
         try:
             b.emit_raw(t + '\n')
         except AssertionError:
@@ -41,15 +114,13 @@ def suite_format(ck):
         real_esc.append(''.join(b.output))
         try:
             real_out.append(b.output_buffer_to_string())
-        except (KeyError, IndexError, ValueError) as e:
+        except (KeyError, IndexError, ValueError):
             real_out.append(None)
+    reqs = [{'op': 'be.escape', 'text': t + '\n'} for t in cases]
+    reqs += [{'op': 'be.format', 'buf': real_esc[i], 'pos': [], 'named': []} for i in range(len(cases))]
+    rep = drive(ck, reqs)
     for i, t in enumerate(cases):
-        reqs[i]['text'] = t + '\n'
-        reqs[len(cases) + i]['buf'] = real_esc[i]
-    rep = ck.driver(reqs)
-    for i, t in enumerate(cases):
-        nontrivial = ('{' in t or '}' in t)
-        ck.case(('fmt', t), nontrivial)
+        ck.case(('fmt', t), '{' in t or '}' in t)
         ck.hist('be.format.text_len', len(t))
         m_esc = rep[i].get('out')
         m_out = rep[len(cases) + i].get('out')
@@ -61,15 +132,1038 @@ def suite_format(ck):
             ck.disagree('be.format', t, real_out[i], m_out)
         else:
             ck.agree('be.format')
-        # direct oracle (the property itself on the real code): raw text reaches the file verbatim
         if real_out[i] != t + '\n':
             ck.failing_input('emit_raw text does not reach the output verbatim',
-                             {'site': 'emit_raw', 'kind': 'verbatim'}, {'text': t, 'got': real_out[i]})
-        if i < 3:
+                             {'site': 'emit_raw', 'kind': 'verbatim'},
+                             {'suite': 'format', 'text': t, 'got': real_out[i]})
+        if i < 2:
             ck.sample({'emit_raw': t + '\n', 'buffer': real_esc[i], 'formatted': real_out[i]})
 
 
+# ======================================================================================= be.path
+
+SEGS = ['a', '.', '..', 'd/e', 'é日', '', '..x', 'out']
+OUT_NAME = 'out'
+
+
+def rel_paths(maxdepth):
+    seen = set()
+    out = []
+    for depth in range(1, maxdepth + 1):
+        for combo in itertools.product(SEGS, repeat=depth):
+            p = '/'.join(combo)
+            for q in (p, p + '/'):
+                if q not in seen:
+                    seen.add(q)
+                    out.append((q, depth))
+    return out
+
+
+class Sandbox:
+    """scratch/l1/l2/l3/l4/w/{out,sub} + scratch/l1/l2/l3/l4/src/f.txt: four levels of padding so that no
+    relative path of depth <= 4 (nor a mutated, no longer refusing implementation) can leave the scratch tree."""
+
+    def __init__(self):
+        self.top = os.path.realpath(core.scratch('stone-verif-c18-'))
+        self.base = os.path.join(self.top, 'l1', 'l2', 'l3', 'l4')
+        self.w = os.path.join(self.base, 'w')
+        self.out = os.path.join(self.w, OUT_NAME)
+        self.sub = os.path.join(self.w, 'sub')
+        self.srcdir = os.path.join(self.base, 'src')
+        self.src = os.path.join(self.srcdir, 'f.txt')
+        for d in (self.out, self.sub, self.srcdir):
+            os.makedirs(d)
+        with open(self.src, 'w') as fh:
+            fh.write('source\n')
+        self.baseline = self.listing()
+
+    def listing(self):
+        files, dirs = set(), set()
+        for root, ds, fs in os.walk(self.top):
+            for d in ds:
+                dirs.add(os.path.join(root, d))
+            for f in fs:
+                files.add(os.path.join(root, f))
+        return files, dirs
+
+    def diff(self):
+        files, dirs = self.listing()
+        return sorted(files - self.baseline[0]), sorted(dirs - self.baseline[1])
+
+    def inside_out(self, p):
+        return p == self.out or p.startswith(self.out + os.sep)
+
+    def reset(self, new_files, new_dirs):
+        for f in new_files:
+            try:
+                os.unlink(f)
+            except OSError:
+                pass
+        for d in sorted(new_dirs, key=len, reverse=True):
+            shutil.rmtree(d, ignore_errors=True)
+        if not os.path.isdir(self.out):
+            os.makedirs(self.out)
+
+
+def _combos(sb):
+    """(name, cwd, root) — root as the backend receives it (target_folder_path)."""
+    return [
+        ('abs-root', sb.w, sb.out),
+        ('rel-root', sb.w, OUT_NAME),
+        ('dotdot-root', sb.sub, '../' + OUT_NAME),
+        ('unnormalised-root', sb.w, OUT_NAME + '/../' + OUT_NAME + '/.'),
+        ('slash-root', sb.w, OUT_NAME + '/'),
+        ('sibling-root', sb.w, '../w/' + OUT_NAME),
+        ('cwd-root', sb.out, '.'),
+    ]
+
+
+def _path_nontrivial(p):
+    return '..' in p.split('/') or p.startswith('/') or '' in p.split('/')[:-1]
+
+
+def suite_path(ck):
+    from stone import backend as be_mod
+    Spaces, _Tabs, Swift = _backend_classes()
+    sb = Sandbox()
+    home = os.getcwd()
+    max_pure = 4
+    max_fs = ck.scale(3, 4)
+    rels = rel_paths(max_pure)
+    # absolute forms: inside the output folder, next to it, double-slash spelling, the folder itself
+    abs_forms = []
+    for p, depth in rels:
+        if depth <= 2:
+            abs_forms.append((sb.out + '/' + p, depth))
+            abs_forms.append((sb.w + '/' + p, depth))
+            abs_forms.append(('/' + sb.out + '/' + p, depth))           # '//…' : the POSIX two-slash quirk
+            abs_forms.append(('//' + sb.out + '/' + p, depth))          # '///…' collapses to '/'
+    all_paths = rels + abs_forms
+    ck.stat('be.path.relative_paths', len(rels))
+    ck.stat('be.path.absolute_forms', len(abs_forms))
+    try:
+        # ---- the pure function, every combination
+        reqs, meta = [], []
+        for cname, cwd, root in _combos(sb):
+            os.chdir(cwd)
+            real_cwd = os.getcwd()
+            for p, depth in all_paths:
+                full = os.path.join(root, p)
+                try:
+                    real = be_mod._relative_output_path(root, full)
+                    ok = True
+                except AssertionError:
+                    real, ok = None, False
+                reqs.append({'op': 'be.path', 'cwd': real_cwd, 'root': root, 'path': p, 'join': True})
+                meta.append((cname, p, depth, full, ok, real, os.path.abspath(full), os.path.dirname(full),
+                             os.path.basename(full)))
+        os.chdir(home)
+        rep = drive(ck, reqs)
+        for m, r in zip(meta, rep):
+            cname, p, depth, full, ok, real, absp, dn, bn = m
+            ck.case(('path', cname, p), _path_nontrivial(p))
+            ck.hist('be.path.depth', depth)
+            ck.hist('be.path.accepted', ok)
+            got = (r.get('accepted'), r.get('rel'), r.get('full'), r.get('abs'), r.get('dirname'), r.get('basename'))
+            want = (ok, real, full, absp, dn, bn)
+            if got != want:
+                ck.disagree('be.path', {'combo': cname, 'path': p}, want, got)
+            else:
+                ck.agree('be.path')
+            # direct oracle on the pure function: an accepted relative name never climbs out
+            if ok:
+                parts = real.split('/')
+                if real.startswith('/') or '..' in parts:
+                    ck.failing_input('accepted output path escapes the output root',
+                                     {'site': '_relative_output_path', 'kind': 'escape'},
+                                     {'suite': 'path', 'writer': 'pure', 'combo': cname, 'path': p, 'relative': real})
+        # ---- the three writers on the real file system
+        fs_paths = [(p, d) for p, d in rels if d <= max_fs] + [(p, d) for p, d in abs_forms if d <= 1]
+        writers = [('output_to_relative_path', Spaces, ['abs-root', 'rel-root', 'dotdot-root']),
+                   ('swift_writer', Swift, ['abs-root', 'rel-root']),
+                   ('copy_to_path', Spaces, ['abs-root', 'rel-root'])]
+        combos = {c[0]: c for c in _combos(sb)}
+        for wname, cls, cnames in writers:
+            for cname in cnames:
+                _c, cwd, root = combos[cname]
+                os.chdir(cwd)
+                real_cwd = os.getcwd()
+                reqs, meta = [], []
+                paths = fs_paths if wname != 'copy_to_path' else [(p, d) for p, d in fs_paths if d <= min(max_fs, 3)]
+                for p, depth in paths:
+                    backend = cls(root, [])
+                    outcome = 'written'
+                    then = None
+                    try:
+                        if wname == 'output_to_relative_path':
+                            with backend.output_to_relative_path(p):
+                                backend.emit('x = {1} é')
+                        elif wname == 'swift_writer':
+                            backend._write_output_in_target_folder('x = {1} é\n', p)
+                        else:
+                            dst = os.path.join(root, p)
+                            if os.path.isdir(dst):
+                                then = os.path.basename(sb.src)
+                            backend.copy_to_path(sb.src, dst)
+                    except AssertionError:
+                        outcome = 'refused'
+                    except OSError:
+                        outcome = 'ioerror'
+                    except (KeyError, IndexError, ValueError):
+                        outcome = 'format-error'
+                    new_files, new_dirs = sb.diff()
+                    content_ok = True
+                    if outcome == 'written' and len(new_files) == 1:
+                        with open(new_files[0], 'rb') as fh:
+                            data = fh.read()
+                        content_ok = data == (b'source\n' if wname == 'copy_to_path' else 'x = {1} é\n'.encode('utf-8'))
+                    sb.reset(new_files, new_dirs)
+                    req = {'op': 'be.path', 'cwd': real_cwd, 'root': root, 'path': p, 'join': True}
+                    if then is not None:
+                        req['then'] = then
+                    reqs.append(req)
+                    meta.append((p, depth, outcome, new_files, new_dirs))
+                    case = {'suite': 'path', 'writer': wname, 'combo': cname, 'cwd': 'w' if cwd == sb.w else 'w/sub',
+                            'root': root.replace(sb.top, '<scratch>'), 'path': p.replace(sb.top, '<scratch>'),
+                            'outcome': outcome,
+                            'new_files': [f.replace(sb.top, '<scratch>') for f in new_files],
+                            'new_dirs': [d.replace(sb.top, '<scratch>') for d in new_dirs]}
+                    # ---- direct oracle: nothing lands outside the output folder; a refusal writes nothing
+                    outside_files = [f for f in new_files if not sb.inside_out(f)]
+                    outside_dirs = [d for d in new_dirs if not sb.inside_out(d)]
+                    if outside_files:
+                        ck.failing_input('%s wrote a file outside the output folder' % wname,
+                                         {'site': wname, 'kind': 'escape'}, case)
+                    elif outside_dirs:
+                        ck.failing_input('%s created a directory outside the output folder' % wname,
+                                         {'site': wname, 'kind': 'dir-outside'}, case)
+                    if outcome == 'refused' and (new_files or new_dirs):
+                        ck.failing_input('%s refused the request after writing' % wname,
+                                         {'site': wname, 'kind': 'refused-after-write'}, case)
+                    if outcome == 'format-error' or not content_ok:
+                        ck.failing_input('text written through %s does not reach the file byte for byte' % wname,
+                                         {'site': wname, 'kind': 'content'}, case)
+                os.chdir(home)
+                rep = drive(ck, reqs)
+                for (p, depth, outcome, new_files, new_dirs), r in zip(meta, rep):
+                    ck.case(('fs', wname, cname, p), _path_nontrivial(p))
+                    ck.hist('be.path.%s' % wname, outcome)
+                    accepted = outcome != 'refused'
+                    want_file = None
+                    if outcome == 'written':
+                        want_file = [os.path.relpath(f, sb.out) for f in new_files]
+                    got_file = [r.get('rel')] if outcome == 'written' else None
+                    if accepted != r.get('accepted') or want_file != got_file:
+                        ck.disagree('be.path.' + wname, {'combo': cname, 'path': p.replace(sb.top, '<scratch>')},
+                                    [outcome, want_file], [r.get('accepted'), r.get('rel')])
+                    else:
+                        ck.agree('be.path.' + wname)
+        # ---- observation outside the quantified domain (7 segments): recorded, not judged
+        os.chdir(sb.w)
+        b = Spaces(OUT_NAME, [])
+        try:
+            with b.output_to_relative_path('x/../../sib/../out/f'):
+                b.emit('x')
+            note = 'written'
+        except AssertionError:
+            note = 'refused'
+        except OSError as e:
+            note = type(e).__name__
+        nf, nd = sb.diff()
+        sb.reset(nf, nd)
+        stray = [d.replace(sb.top, '<scratch>') for d in nd if not sb.inside_out(d)]
+        if stray:
+            ck.note('observation (depth 7, outside the quantified domain, not judged): output_to_relative_path('
+                    "'x/../../sib/../out/f') is accepted (target inside), then os.makedirs of the un-normalised dirname "
+                    'creates %s next to the output folder before failing with %s; no file is written' % (stray, note))
+    finally:
+        os.chdir(home)
+
+
+# ======================================================================================= be.emit
+
+PH_NAMES = ['x', 'name', '_p1', 'é']   # 'é' is outside the modelled subset of field names -> never sent, see gen
+TEXTS = ['{', '}', '{{', '}}', '{}', '{0}', '{x}', '%s', '{!r}', '{:>4}', 'a', 'bc', ' ', '  ', 'é', '日本', '\\', '"',
+         'foo(bar)', 'x = y;', '\t', '-', 'long-hyphen-ated', '😀', ' ', ' ']
+
+
+def gen_line(rng, maxlen=5):
+    return ''.join(rng.choice(TEXTS) for _ in range(rng.randint(0, maxlen)))
+
+
+def gen_words(rng, n=None):
+    n = rng.randint(0, 14) if n is None else n
+    seps = [' ', ' ', ' ', '  ', '\n', '\t', ' \n ', '\r\n', '\x0b', '\x0c', ' ', '\x1c', ' ', '\x85']
+    words = ['a', 'the', 'word', 'é', '日本語', 'hy-phen-ated', 'x' * rng.randint(1, 30), '{}', '{x}', '}', 'a b',
+             '-', '--', 'end.', 'Q?', '😀', 'w w', '%s']
+    parts = [rng.choice(['', '', ' ', '\n', '\t'])]
+    for _ in range(n):
+        parts.append(rng.choice(words))
+        parts.append(rng.choice(seps))
+    if parts and rng.random() < 0.5:
+        parts.pop()
+    return ''.join(parts)
+
+
+def gen_ops(rng, depth, bad):
+    """A list of emit ops (nested arrays, the driver's wire format). `bad` = probability of an ill-formed op."""
+    ops = []
+    for _ in range(rng.randint(0, 4 if depth else 6)):
+        k = rng.random()
+        if k < 0.30:
+            s = gen_line(rng)
+            if rng.random() < bad:
+                s += '\n' + gen_line(rng, 2)
+            ops.append(['emit', s])
+        elif k < 0.40:
+            s = ''.join(rng.choice(TEXTS + ['\n']) for _ in range(rng.randint(0, 5)))
+            if not (rng.random() < bad):
+                s = s + '\n' if s else rng.choice(['', '\n'])
+            ops.append(['raw', s])
+        elif k < 0.48:
+            name = rng.choice(['', '', 'x', 'name', '_p1'])
+            ops.append(['ph', name])
+            if not (rng.random() < bad):
+                if name == '':
+                    ops.insert(rng.randint(0, len(ops)), ['pos', gen_line(rng, 3)])
+                else:
+                    ops.insert(rng.randint(0, len(ops)), ['named', name, gen_line(rng, 3)])
+        elif k < 0.52:
+            ops.append(rng.choice([['pos', gen_line(rng, 2)], ['named', rng.choice(['x', 'name', 'unused']), gen_line(rng, 2)]]))
+        elif k < 0.62:
+            width = rng.choice([80, 80, 40, 20, 10, 5, 1]) if not (rng.random() < bad) else rng.choice([0, -3])
+            ops.append(['wrapped', gen_words(rng), rng.choice(['', '', '// ', '# ', ' * ', '{']),
+                        rng.choice(['', '', '- ', '/** ']), rng.choice(['', '', '  ', ' * ']), width])
+        elif k < 0.74 and depth < 3:
+            dent = rng.choice([None, None, 0, 1, 2, 4, 7])
+            if rng.random() < bad:
+                dent = -rng.randint(1, 3)
+            ops.append(['indent', dent, gen_ops(rng, depth + 1, bad)])
+        elif k < 0.88 and depth < 3:
+            dent = rng.choice([None, None, None, 0, 2, 8])
+            if rng.random() < bad:
+                dent = -1
+            d0 = rng.choice(['{', '{', '(', '', None, 'begin', '{{'])
+            d1 = rng.choice(['}', '}', ')', '', None, 'end', '}}'])
+            ops.append(['block', rng.choice(['', 'if (x)', 'class A', 'def f():', '{b}', 'é']),
+                        rng.choice(['', '', ';', ' // {end}']), d0, d1, dent, rng.random() < 0.3,
+                        gen_ops(rng, depth + 1, bad)])
+        else:
+            items = [gen_line(rng, 2) for _ in range(rng.randint(0, 4))]
+            if rng.random() < bad and items:
+                items[rng.randrange(len(items))] += '\n'
+            ops.append(['mlist', items, rng.choice(['', '', 'f', 'x = {', 'call ']), rng.choice(['', ';', ' -> T', '}']),
+                        rng.choice(['(', '[', '', '{', '<<']), rng.choice([')', ']', '', '}']), rng.random() < 0.5,
+                        rng.choice([',', ',', '', ' |', '{,}']), rng.random() < 0.5])
+    return ops
+
+
+def exec_ops(b, ops):
+    for op in ops:
+        t = op[0]
+        if t == 'emit':
+            b.emit(op[1])
+        elif t == 'raw':
+            b.emit_raw(op[1])
+        elif t == 'ph':
+            b.emit_placeholder(op[1])
+        elif t == 'pos':
+            b.add_positional_placeholder(op[1])
+        elif t == 'named':
+            b.add_named_placeholder(op[1], op[2])
+        elif t == 'wrapped':
+            b.emit_wrapped_text(op[1], prefix=op[2], initial_prefix=op[3], subsequent_prefix=op[4], width=op[5])
+        elif t == 'indent':
+            with b.indent(op[1]):
+                exec_ops(b, op[2])
+        elif t == 'block':
+            with b.block(before=op[1], after=op[2], delim=(op[3], op[4]), dent=op[5], allman=op[6]):
+                exec_ops(b, op[7])
+        elif t == 'mlist':
+            b.generate_multiline_list(op[1], before=op[2], after=op[3], delim=(op[4], op[5]), compact=op[6], sep=op[7],
+                                      skip_last_sep=op[8])
+        else:
+            raise RuntimeError(t)
+
+
+class Refused(Exception):
+    pass
+
+
+def reference_text(ops, tabs):
+    """Independent reference pretty-printer (written from the docstrings of stone/backend.py, no buffer, no
+    str.format): returns the final text, raises Refused for scripts the backend must reject."""
+    unit = '\t' if tabs else ' '
+    step = 1 if tabs else 4
+    pos, named = [], {}
+
+    def collect(ops):
+        for op in ops:
+            if op[0] == 'pos':
+                pos.append(op[1])
+            elif op[0] == 'named':
+                named[op[1]] = op[2]
+            elif op[0] == 'indent':
+                collect(op[2])
+            elif op[0] == 'block':
+                collect(op[7])
+    collect(ops)
+    out = []
+    next_pos = [0]
+
+    def line(ind, text):
+        if '\n' in text:
+            raise Refused('newline in emit')
+        out.append(unit * ind + text + '\n' if text else '\n')
+
+    def dent_of(d):
+        if d is None:
+            return step
+        if d < 0:
+            raise Refused('negative dent')
+        return d
+
+    def go(ops, ind):
+        for op in ops:
+            t = op[0]
+            if t == 'emit':
+                line(ind, op[1])
+            elif t == 'raw':
+                if op[1] and not op[1].endswith('\n'):
+                    raise Refused('raw without newline')
+                out.append(op[1])
+            elif t == 'ph':
+                if op[1] == '':
+                    if next_pos[0] >= len(pos):
+                        raise Refused('positional placeholder missing')
+                    out.append(pos[next_pos[0]])
+                    next_pos[0] += 1
+                else:
+                    if op[1] not in named:
+                        raise Refused('named placeholder missing')
+                    out.append(named[op[1]])
+            elif t in ('pos', 'named'):
+                pass
+            elif t == 'wrapped':
+                if op[5] <= 0:
+                    raise Refused('width')
+                pre = unit * ind + op[2]
+                out.append(textwrap.fill(op[1], width=op[5], initial_indent=pre + op[3], subsequent_indent=pre + op[4],
+                                         break_long_words=False, break_on_hyphens=False) + '\n')
+            elif t == 'indent':
+                go(op[2], ind + dent_of(op[1]))
+            elif t == 'block':
+                _t, before, after, d0, d1, dent, allman, body = op
+                if before and not allman:
+                    line(ind, before + ' ' + d0 if d0 is not None else before)
+                else:
+                    if before:
+                        line(ind, before)
+                    if d0 is not None:
+                        line(ind, d0)
+                go(body, ind + dent_of(dent))
+                line(ind, (d1 if d1 is not None else '') + after)
+            elif t == 'mlist':
+                _t, items, before, after, d0, d1, compact, sep, skip = op
+                if len(items) == 0:
+                    line(ind, before + d0 + d1 + after)
+                elif len(items) == 1:
+                    line(ind, before + d0 + items[0] + d1 + after)
+                elif compact:
+                    line(ind, before + d0 + items[0] + sep)
+                    inner = ind + len(before) + len(d0)
+                    for it in items[1:-1]:
+                        line(inner, it + sep)
+                    line(inner, items[-1] + d1 + after)
+                else:
+                    if before + d0:
+                        line(ind, before + d0)
+                    for it in items[:-1]:
+                        line(ind + step, it + sep)
+                    line(ind + step, items[-1] + ('' if skip else sep))
+                    if d1 + after:
+                        line(ind, d1 + after)
+    go(ops, 0)
+    return ''.join(out)
+
+
+def run_emit_real(cls, ops):
+    b = cls('/nonexistent', [])
+    try:
+        exec_ops(b, ops)
+        return b.output_buffer_to_string()
+    except EMIT_ERRORS:
+        return None
+
+
+def _script_nontrivial(ops):
+    s = json.dumps(ops)
+    return '{' in s or '"ph"' in s or '"block"' in s or '"indent"' in s
+
+
+def _count_ops(ops):
+    n = 0
+    for op in ops:
+        n += 1
+        if op[0] == 'indent':
+            n += _count_ops(op[2])
+        elif op[0] == 'block':
+            n += _count_ops(op[7])
+    return n
+
+
+def _emit_mismatch(cls, tabs, ops):
+    try:
+        ref = reference_text(ops, tabs)
+    except Refused:
+        ref = None
+    real = run_emit_real(cls, ops)
+    return real != ref, real, ref
+
+
+def _variants(ops):
+    """smaller scripts: one op removed, a context replaced by its body, a body emptied (at any depth)"""
+    for i, op in enumerate(ops):
+        yield ops[:i] + ops[i + 1:]
+        body_at = {'indent': 2, 'block': 7}.get(op[0])
+        if body_at is not None:
+            body = op[body_at]
+            yield ops[:i] + body + ops[i + 1:]
+            if body:
+                yield ops[:i] + [op[:body_at] + [[]] + op[body_at + 1:]] + ops[i + 1:]
+            for v in _variants(body):
+                yield ops[:i] + [op[:body_at] + [v] + op[body_at + 1:]] + ops[i + 1:]
+        if op[0] == 'mlist' and len(op[1]) > 2:
+            yield ops[:i] + [[op[0], op[1][:2]] + op[2:]] + ops[i + 1:]
+
+
+def shrink_script(cls, tabs, ops, budget=400):
+    """Greedy minimisation of a failing emit script (keeps failing the reference comparison)."""
+    improved = True
+    while improved and budget > 0:
+        improved = False
+        for v in _variants(ops):
+            budget -= 1
+            if budget <= 0:
+                break
+            if _emit_mismatch(cls, tabs, v)[0]:
+                ops = v
+                improved = True
+                break
+    return ops
+
+
+def emit_oracle(ck, cls, tabs, ops, real):
+    try:
+        ref = reference_text(ops, tabs)
+    except Refused:
+        ref = None
+    if real != ref:
+        if not any(v['what'].startswith('emitted text differs') for v in ck.violations):
+            small = shrink_script(cls, tabs, ops)
+            bad, sreal, sref = _emit_mismatch(cls, tabs, small)
+            if bad:
+                ops, real, ref = small, sreal, sref
+        kind = 'accepts-ill-formed' if ref is None else ('rejects-well-formed' if real is None else 'text-differs')
+        ck.failing_input('emitted text differs from the reference pretty-printer (%s)' % kind,
+                         {'site': 'emit-script', 'kind': kind},
+                         {'suite': 'emit', 'tabs': tabs, 'script': ops, 'real': real, 'reference': ref})
+        return False
+    return True
+
+
+def suite_emit(ck):
+    Spaces, Tabs, _Swift = _backend_classes()
+    n = ck.scale(3000, 60000)
+    scripts = []
+    for i in range(n):
+        bad = 0.0 if ck.rng.random() < 0.75 else 0.08
+        scripts.append((ck.rng.random() < 0.5, gen_ops(ck.rng, 0, bad)))
+    reals = []
+    for tabs, ops in scripts:
+        reals.append(run_emit_real(Tabs if tabs else Spaces, ops))
+    rep = drive(ck, [{'op': 'be.emit', 'tabs': tabs, 'script': ops} for tabs, ops in scripts])
+    for (tabs, ops), real, r in zip(scripts, reals, rep):
+        ck.case(('emit', tabs, json.dumps(ops)), _script_nontrivial(ops))
+        ck.hist('be.emit.ops', min(_count_ops(ops), 20))
+        ck.hist('be.emit.outcome', 'error' if real is None else 'text')
+        if 'protocol_error' in r:
+            ck.disagree('be.emit', {'tabs': tabs, 'script': ops}, real, r)
+            continue
+        model = r.get('out') if r.get('ok') else None
+        if model != real or r.get('ref') != model:
+            ck.disagree('be.emit', {'tabs': tabs, 'script': ops}, real, {'model': model, 'err': r.get('err'), 'ref': r.get('ref')})
+        else:
+            ck.agree('be.emit')
+        emit_oracle(ck, Tabs if tabs else Spaces, tabs, ops, real)
+    for tabs, ops in scripts[:2]:
+        ck.sample({'emit_script': ops, 'tabs': tabs, 'text': run_emit_real(Tabs if tabs else Spaces, ops)})
+
+
+# ======================================================================================= be.wrap
+
+def wrap_oracle(ck, case, out):
+    """words preserved in order, every line behind its prefix"""
+    text, ind, prefix, ini, sub, width = (case[k] for k in ('text', 'indent', 'prefix', 'ini', 'sub', 'width'))
+    p0 = ind + prefix + ini
+    p1 = ind + prefix + sub
+    body = out[:-1] if out.endswith('\n') else out
+    lines = body.split('\n') if body else []
+    words = []
+    ok = out.endswith('\n')
+    for i, ln in enumerate(lines):
+        p = p0 if i == 0 else p1
+        if not ln.startswith(p):
+            ok = False
+            break
+        words.extend(ln[len(p):].split())
+    if ok and words != text.split():
+        ok = False
+    if not ok:
+        ck.failing_input('wrapped text loses / reorders words or drops a prefix',
+                         {'site': 'emit_wrapped_text', 'kind': 'words'}, dict(case, suite='wrap', got=out))
+    return ok
+
+
+def suite_wrap(ck):
+    Spaces, Tabs, _Swift = _backend_classes()
+    n = ck.scale(4000, 80000)
+    cases = []
+    for i in range(n):
+        tabs = ck.rng.random() < 0.3
+        depth = ck.rng.choice([0, 0, 1, 2, 5])
+        cases.append({'text': gen_words(ck.rng), 'tabs': tabs, 'depth': depth,
+                      'indent': ('\t' if tabs else ' ') * depth,
+                      'prefix': ck.rng.choice(['', '', '// ', '# ', '{', '  ']),
+                      'ini': ck.rng.choice(['', '', '- ', '/** ', 'é ']),
+                      'sub': ck.rng.choice(['', '', '  ', ' * ']),
+                      'width': ck.rng.choice([80, 80, 60, 30, 20, 12, 8, 5, 3, 1, 90, 0, -2])})
+    reals = []
+    for c in cases:
+        b = (Tabs if c['tabs'] else Spaces)('/nonexistent', [])
+        b.cur_indent = c['depth']
+        try:
+            b.emit_wrapped_text(c['text'], prefix=c['prefix'], initial_prefix=c['ini'], subsequent_prefix=c['sub'],
+                                width=c['width'])
+            reals.append(b.output_buffer_to_string())
+        except ValueError:
+            reals.append(None)
+    rep = drive(ck, [{'op': 'be.wrap', 'text': c['text'], 'ini': c['indent'] + c['prefix'] + c['ini'],
+                      'sub': c['indent'] + c['prefix'] + c['sub'], 'width': c['width']} for c in cases])
+    for c, real, r in zip(cases, reals, rep):
+        nlines = 0 if real is None else real.count('\n')
+        ck.case(('wrap', json.dumps(c, sort_keys=True)), nlines > 1)
+        ck.hist('be.wrap.lines', min(nlines, 12))
+        ck.hist('be.wrap.width', c['width'])
+        model = (r.get('out') + '\n') if r.get('ok') else None
+        if model != real:
+            ck.disagree('be.wrap', c, real, model)
+        else:
+            ck.agree('be.wrap')
+        if real is not None:
+            wrap_oracle(ck, c, real)
+            if r.get('ok') and r.get('words') != c['text'].split():
+                ck.disagree('be.wrap.words', c, c['text'].split(), r.get('words'))
+        elif c['width'] > 0:
+            ck.failing_input('emit_wrapped_text rejects a positive width', {'site': 'emit_wrapped_text', 'kind': 'rejects'},
+                             dict(c, suite='wrap'))
+    ck.sample({'wrap': cases[0], 'text': reals[0]})
+
+
+# ======================================================================================= manifest: API level
+
+def _abs_ancestors(path):
+    comps = [c for c in path.split('/') if c]
+    return [comps[:i] for i in range(1, len(comps) + 1)]
+
+
+def gen_manifest_ops(rng):
+    ops = []
+    for _ in range(rng.randint(1, 6)):
+        k = rng.random()
+        content = rand_text(rng, 4).replace('\n', ' ')
+        if k < 0.6:
+            rel = rng.choice(['f1.txt', 'f2.py', 'sub/f3.txt', 'sub/deep/f4.txt', './f1.txt', 'sub//f3.txt', 'é/日.txt',
+                              '__init__.py', '__init__.py', '../escape.txt', '../../e2.txt', '@ABS@/abs-escape.txt',
+                              'sub/../../e3.txt', 'Resources', '', '.', 'Resources/r.txt', '..x/ok.txt'])
+            ops.append(['out', rel, rng.random() < 0.3, content])
+        elif k < 0.85:
+            dst = rng.choice(['', 'Resources', 'Resources/', 'copied.txt', 'Resources/renamed.h', 'missing/c.txt',
+                              '../outside.txt', '..'])
+            ops.append(['copy', rng.choice(['src1.h', 'src2.m']), content, dst])
+        else:
+            ops.append(['swift', content, rng.choice(['A.swift', 'B.swift', 'Resources/C.swift', 'nodir/D.swift',
+                                                      '../E.swift', 'A.swift'])])
+    return ops
+
+
+def run_manifest_real(cls, sb, root, ops, manifest):
+    """Execute the ops on a real backend. Returns (status, manifest outputs or None, {relative file: content})."""
+    from stone.backend import OutputManifest
+    om = OutputManifest() if manifest else None
+    b = cls(root, [], output_manifest=om)
+    status = 'ok'
+    try:
+        for op in ops:
+            if op[0] == 'out':
+                with b.output_to_relative_path(op[1], mode='ab' if op[2] else 'wb'):
+                    b.emit_raw(op[3] + '\n')
+            elif op[0] == 'copy':
+                src = os.path.join(sb.srcdir, op[1])
+                with open(src, 'w', encoding='utf-8') as fh:
+                    fh.write(op[2] + '\n')
+                b.copy_to_path(src, os.path.join(root, op[3]) if op[3] != '' else root)
+            else:
+                b._write_output_in_target_folder(op[1] + '\n', op[2])
+    except AssertionError:
+        status = 'refused'
+    except OSError:
+        status = 'io'
+    except (KeyError, IndexError, ValueError):
+        status = 'format-error'
+    return status, (om.outputs() if om else None)
+
+
+def suite_manifest_api(ck):
+    _Spaces, _Tabs, Swift = _backend_classes()
+    sb = Sandbox()
+    os.makedirs(os.path.join(sb.out, 'Resources'))
+    sb.baseline = sb.listing()
+    home = os.getcwd()
+    n = ck.scale(400, 6000)
+    dirs = _abs_ancestors(sb.out) + [_abs_ancestors(sb.out)[-1] + ['Resources']]
+    try:
+        os.chdir(sb.w)
+        cwd = os.getcwd()
+        seqs = [(ck.rng.choice([OUT_NAME, sb.out, './' + OUT_NAME]),
+                 [[x.replace('@ABS@', sb.base) if isinstance(x, str) else x for x in op] for op in gen_manifest_ops(ck.rng)])
+                for _ in range(n)]
+        reqs, reals = [], []
+        for root, ops in seqs:
+            for manifest in (False, True):
+                status, outputs = run_manifest_real(Swift, sb, root, ops, manifest)
+                new_files, new_dirs = sb.diff()
+                new_files = [f for f in new_files if not f.startswith(sb.srcdir)]
+                files = {}
+                for f in new_files:
+                    with open(f, encoding='utf-8') as fh:
+                        files[f] = fh.read()
+                sb.reset(new_files + [os.path.join(sb.srcdir, 'src1.h'), os.path.join(sb.srcdir, 'src2.m')], new_dirs)
+                os.makedirs(os.path.join(sb.out, 'Resources'), exist_ok=True)
+                reals.append((status, outputs, files, new_dirs))
+                model_ops = []
+                for op in ops:
+                    if op[0] == 'out':
+                        model_ops.append(['out', op[1], op[2], op[3] + '\n'])
+                    elif op[0] == 'copy':
+                        model_ops.append(['copy', op[1], op[2] + '\n', os.path.join(root, op[3]) if op[3] != '' else root])
+                    else:
+                        model_ops.append(['swift', op[1] + '\n', op[2]])
+                reqs.append({'op': 'be.manifest', 'cwd': cwd, 'root': root, 'manifest': manifest, 'dirs': dirs,
+                             'ops': model_ops})
+        os.chdir(home)
+        rep = drive(ck, reqs)
+        i = 0
+        for root, ops in seqs:
+            for manifest in (False, True):
+                status, outputs, files, new_dirs = reals[i]
+                r = rep[i]
+                i += 1
+                case = {'suite': 'manifest_api', 'root': root.replace(sb.top, '<scratch>'), 'ops': ops, 'manifest': manifest,
+                        'status': status, 'files': sorted(f.replace(sb.top, '<scratch>') for f in files)}
+                ck.case(('mapi', root, json.dumps(ops), manifest), bool(files) or bool(outputs))
+                ck.hist('be.manifest_api.status', '%s/%s' % ('manifest' if manifest else 'real', status))
+                real_files = sorted(('/' + '/'.join(k.strip('/').split('/')), v) for k, v in files.items())
+                model_files = sorted(('/' + '/'.join(k), v) for k, v in r.get('files', []))
+                want = (status, outputs if manifest else None, real_files)
+                got = (r.get('status'), r.get('outputs') if manifest else None, model_files)
+                if want != got:
+                    ck.disagree('be.manifest_api', case, want, got)
+                else:
+                    ck.agree('be.manifest_api')
+                # direct oracles
+                outside = [f for f in files if not sb.inside_out(f)] + [d for d in new_dirs if not sb.inside_out(d)]
+                if outside:
+                    ck.failing_input('a write request landed outside the output folder',
+                                     {'site': 'backend-api', 'kind': 'escape'}, case)
+                if manifest and files:
+                    ck.failing_input('a manifest run created a file', {'site': 'backend-api', 'kind': 'manifest-writes'}, case)
+                if status == 'format-error':
+                    ck.failing_input('raw text does not survive output_buffer_to_string',
+                                     {'site': 'backend-api', 'kind': 'content'}, case)
+            # manifest vs real of the same sequence (same status => same set), when no copy goes to a non-directory
+            (s_real, _o, f_real, _d), (s_man, o_man, _f, _d2) = reals[i - 2], reals[i - 1]
+            if s_real == 'ok' and s_man == 'ok':
+                created = sorted(os.path.relpath(f, sb.out) for f in f_real)
+                if created != o_man:
+                    ck.failing_input('manifest differs from the files the real run created (API sequence)',
+                                     {'site': 'backend-api', 'kind': 'manifest-differs'},
+                                     {'suite': 'manifest_api', 'root': root.replace(sb.top, '<scratch>'), 'ops': ops,
+                                      'created': created, 'manifest': o_man})
+    finally:
+        os.chdir(home)
+
+
+# ======================================================================================= manifest: built-in backends
+
+SPEC_DIR = os.path.join(core.VERIF, 'harness', 'specs', 'c18')
+SW_ARGS = ['-m', 'Mod', '-c', 'Client', '-t', 'Transport', '-y', '{}', '-z',
+           '{"rpc":"RpcRequest","upload":"UploadRequest","download":"DownloadRequest"}']
+TEMPLATE = '// header\n/*IMPORT*/\n/*TYPES*/\n/*ROUTES*/\n// footer {x}\n'
+
+# (backend, args, needs template in the output folder, expected to be refused)
+BACKEND_RUNS = [
+    ('python_types', ['-p', 'pk'], False, False),
+    ('python_types', ['-p', 'pk', '-r', 'route_{ns}_{route}'], False, False),
+    ('python_type_stubs', ['-p', 'pk'], False, False),
+    ('python_client', ['-m', 'base', '-c', 'Base', '-t', 'pk'], False, False),
+    ('python_client', ['-m', 'sub/dir/base', '-c', 'Base', '-t', 'pk', '-a', 'auth'], False, False),
+    ('python_client', ['-m', '../escape', '-c', 'Base', '-t', 'pk'], False, True),
+    ('js_client', ['r.js'], False, False),
+    ('js_client', ['lib/nested/r.js', '-c', 'Api'], False, False),
+    ('js_client', ['../../escape.js'], False, True),
+    ('js_types', ['t.js'], False, False),
+    ('js_types', ['@TOP@/abs-escape.js'], False, True),
+    ('tsd_types', ['t.template', 't.d.ts'], True, False),
+    ('tsd_types', ['t.template'], True, False),
+    ('tsd_types', ['t.template', 'types/all.d.ts', '--export-namespaces'], True, False),
+    ('tsd_client', ['t.template', 'c.d.ts'], True, False),
+    ('tsd_client', ['t.template', 'x/../c.d.ts', '--import-namespaces'], True, False),
+    ('swift_types', [], False, False),
+    ('swift_types', ['--objc'], False, False),
+    ('swift_types', ['-d'], False, True),
+    ('swift_client', SW_ARGS, False, False),
+    ('swift_client', SW_ARGS + ['--objc'], False, False),
+    ('swift_client', ['-m', '../Mod'] + SW_ARGS[2:], False, True),
+    ('obj_c_types', [], False, False),
+    ('obj_c_types', ['-d'], False, True),
+    ('obj_c_client', SW_ARGS, False, False),
+]
+
+
+def load_specs():
+    cfg = open(os.path.join(SPEC_DIR, 'stone_cfg.stone'), encoding='utf-8').read()
+    out = []
+    for d in sorted(os.listdir(SPEC_DIR)):
+        p = os.path.join(SPEC_DIR, d)
+        if os.path.isdir(p):
+            files = [(f, open(os.path.join(p, f), encoding='utf-8').read()) for f in sorted(os.listdir(p))
+                     if f.endswith('.stone')]
+            out.append((d, [('stone_cfg.stone', cfg)] + files))
+    return out
+
+
+def _walk_files(root):
+    res = {}
+    for r, _ds, fs in os.walk(root):
+        for f in fs:
+            p = os.path.join(r, f)
+            try:
+                with open(p, 'rb') as fh:
+                    res[p] = fh.read()
+            except OSError:
+                res[p] = None
+    return res
+
+
+def _walk_dirs(root):
+    return {os.path.join(r, d) for r, ds, _f in os.walk(root) for d in ds}
+
+
+def run_backend_once(sb_top, name, args, specs, template, manifest, via_cli_helpers=True):
+    """One Compiler run in a fresh tree <top>/l1/l2/l3/l4/proj/out with cwd = proj.
+    Returns dict(status, manifest, created (relative to out), outside (absolute), dirs_created)."""
+    from stone.frontend.frontend import specs_to_ir
+    from stone.compiler import Compiler, BackendException
+    from stone import cli as stone_cli
+    proj = os.path.join(sb_top, 'l1', 'l2', 'l3', 'l4', 'proj')
+    args = [a.replace('@TOP@', sb_top) for a in args]
+    shutil.rmtree(os.path.join(sb_top, 'l1'), ignore_errors=True)
+    out = os.path.join(proj, 'out')
+    os.makedirs(out)
+    os.makedirs(os.path.join(sb_top, 'l1', 'l2', 'l3', 'l4', 'Format'))
+    with open(os.path.join(sb_top, 'l1', 'l2', 'l3', 'l4', 'Format', 'jazzy.json'), 'w') as fh:
+        json.dump({'custom_categories': [{'name': 'Routes', 'children': []}, {'name': 'Types', 'children': []},
+                                         {'name': 'RouteObjects', 'children': []}]}, fh)
+    if template:
+        with open(os.path.join(out, 't.template'), 'w') as fh:
+            fh.write(TEMPLATE)
+    before_files = _walk_files(sb_top)
+    before_dirs = _walk_dirs(sb_top)
+    home = os.getcwd()
+    os.chdir(proj)
+    status = 'ok'
+    detail = ''
+    try:
+        api = specs_to_ir(specs)
+        mod = importlib.import_module('stone.backends.' + name)
+        c = Compiler(api, mod, list(args), 'out', output_manifest=manifest)
+        try:
+            c.build()
+        except BackendException as e:
+            last = e.traceback.strip().splitlines()[-1]
+            status = 'refused' if 'attempted to write outside its output root' in last else 'backend-exception'
+            detail = last[:200]
+        man = c.output_manifest() if manifest else None
+        actual = stone_cli._actual_outputs('out')
+    except SystemExit as e:
+        status, man, actual, detail = 'usage', None, [], str(e)
+    finally:
+        os.chdir(home)
+    after_files = _walk_files(sb_top)
+    after_dirs = _walk_dirs(sb_top)
+    changed = sorted(p for p, v in after_files.items() if before_files.get(p, b'\0missing') != v or p not in before_files)
+    created_rel = sorted(os.path.relpath(p, out) for p in changed if p == out or p.startswith(out + os.sep))
+    outside = sorted(p for p in changed if not p.startswith(out + os.sep))
+    new_dirs = sorted(after_dirs - before_dirs)
+    return {'status': status, 'detail': detail, 'manifest': man, 'created': created_rel,
+            'outside': [p.replace(sb_top, '<scratch>') for p in outside],
+            'new_dirs': [d.replace(sb_top, '<scratch>') for d in new_dirs],
+            'outside_dirs': [d.replace(sb_top, '<scratch>') for d in new_dirs if not (d == out or d.startswith(out + os.sep))],
+            'actual_outputs': sorted(a for a in actual if not (template and a == 't.template'))}
+
+
+def backend_oracle(ck, case, real, man):
+    """The property on one (backend, spec, args): manifest run == real run, manifest run writes nothing,
+    nothing lands outside the output folder."""
+    sig = {'site': 'manifest', 'backend': case['backend']}
+    okay = True
+    for mode, r in (('real', real), ('manifest', man)):
+        if r['outside'] or r['outside_dirs']:
+            ck.failing_input('%s run of %s wrote outside the output folder' % (mode, case['backend']),
+                             dict(sig, kind='escape'), dict(case, mode=mode, result=r))
+            okay = False
+    if man['created'] or man['outside']:
+        ck.failing_input('manifest run of %s created files' % case['backend'], dict(sig, kind='manifest-writes'),
+                         dict(case, result=man))
+        okay = False
+    if real['status'] != man['status'] or (real['status'] == 'backend-exception' and real['detail'] != man['detail']):
+        # the two runs do not end the same way: the manifest promises files the real run does not deliver (or vice versa)
+        ck.failing_input('manifest run and real run of %s end differently (real: %s / manifest: %s)'
+                         % (case['backend'], real['detail'] or real['status'], man['detail'] or man['status']),
+                         dict(sig, kind='status-differs', real_error=(real['detail'].split(':')[0] or real['status']),
+                              manifest_error=(man['detail'].split(':')[0] or man['status'])),
+                         dict(case, real=real, manifest=man))
+        okay = False
+    elif real['status'] == 'ok':
+        if man['manifest'] != real['created'] or real['created'] != real['actual_outputs']:
+            ck.failing_input('manifest of %s differs from the files the real run creates' % case['backend'],
+                             dict(sig, kind='manifest-differs'),
+                             dict(case, manifest=man['manifest'], created=real['created'],
+                                  actual_outputs=real['actual_outputs']))
+            okay = False
+    elif real['status'] == 'refused':
+        # both refused at the same request: what was recorded before equals what was written before
+        if man['manifest'] != real['created']:
+            ck.failing_input('manifest of %s differs from the files the real run created before the refusal'
+                             % case['backend'], dict(sig, kind='manifest-differs'),
+                             dict(case, manifest=man['manifest'], created=real['created']))
+            okay = False
+    return okay
+
+
+def suite_manifest_backends(ck):
+    top = os.path.realpath(core.scratch('stone-verif-c18-be-'))
+    specs = load_specs()
+    runs = BACKEND_RUNS
+    seen_backends = set()
+    dirs_noted = set()
+    for sname, spec in specs:
+        for name, args, template, expect_refused in runs:
+            case = {'suite': 'manifest_backends', 'backend': name, 'args': args, 'spec': sname}
+            try:
+                real = run_backend_once(top, name, args, spec, template, False)
+                man = run_backend_once(top, name, args, spec, template, True)
+            except Exception as e:  # a backend that cannot run on this spec at all
+                ck.note('skipped %s %s on %s: %s: %s' % (name, args[:2], sname, type(e).__name__, str(e)[:120]))
+                ck.stat('be.manifest_backends.skipped')
+                continue
+            if real['status'] in ('backend-exception', 'usage') and man['status'] == real['status']:
+                ck.note('backend %s %s on %s ends with %s in both modes: %s' % (name, args[:2], sname, real['status'],
+                                                                                   real['detail']))
+                ck.stat('be.manifest_backends.crashed_both')
+            seen_backends.add(name)
+            ck.case(('mbe', name, tuple(args), sname), bool(real['created']))
+            ck.hist('be.manifest_backends.status', real['status'])
+            ck.hist('be.manifest_backends.files', min(len(real['created']), 25))
+            ck.stat('be.manifest_backends.dirs_created_by_manifest_runs', len(man['new_dirs']))
+            if man['new_dirs'] and name not in dirs_noted:
+                dirs_noted.add(name)
+                ck.note('manifest run of %s creates directories (no files): %s' % (name, man['new_dirs']))
+            if expect_refused and real['status'] != 'refused':
+                ck.note('expected a refusal for %s %s on %s, got %s' % (name, args, sname, real['status']))
+            if backend_oracle(ck, case, real, man):
+                ck.agree('be.manifest_backends')
+            else:
+                ck.disagree('be.manifest_backends', case, real, man)
+            if name == 'python_types' and sname == 'basic' and len(args) == 2:
+                ck.sample({'backend': name, 'spec': sname, 'manifest': man['manifest'], 'created': real['created']})
+    ck.stat('be.manifest_backends.backends', len(seen_backends))
+    shutil.rmtree(os.path.join(top, 'l1'), ignore_errors=True)
+
+
+# ======================================================================================= replay
+
 def replay(ck, path):
-    case = json.load(open(path))
-    print(json.dumps(case, indent=1)[:2000])
-    return 0
+    """Re-evaluate the oracle of one recorded failing input on the tree under test."""
+    rec = json.load(open(path))
+    print(json.dumps(rec, indent=1, ensure_ascii=False)[:3000])
+    case = rec.get('case') or {}
+    suite = case.get('suite')
+    Spaces, Tabs, Swift = _backend_classes()
+    before = len(ck.violations)
+    if suite == 'format':
+        b = Spaces('/nonexistent', [])
+        b.emit_raw(case['text'] + '\n')
+        if b.output_buffer_to_string() != case['text'] + '\n':
+            ck.failing_input('emit_raw text does not reach the output verbatim', {'site': 'emit_raw', 'kind': 'verbatim'}, case)
+    elif suite == 'emit':
+        cls = Tabs if case['tabs'] else Spaces
+        emit_oracle(ck, cls, case['tabs'], case['script'], run_emit_real(cls, case['script']))
+    elif suite == 'wrap':
+        b = (Tabs if case['tabs'] else Spaces)('/nonexistent', [])
+        b.cur_indent = case['depth']
+        b.emit_wrapped_text(case['text'], prefix=case['prefix'], initial_prefix=case['ini'], subsequent_prefix=case['sub'],
+                            width=case['width'])
+        wrap_oracle(ck, {k: case[k] for k in ('text', 'tabs', 'depth', 'indent', 'prefix', 'ini', 'sub', 'width')},
+                    b.output_buffer_to_string())
+    elif suite == 'path' and case.get('writer') in ('output_to_relative_path', 'swift_writer', 'copy_to_path'):
+        sb = Sandbox()
+        home = os.getcwd()
+        try:
+            os.chdir(sb.w if case['cwd'] == 'w' else sb.sub)
+            root = case['root'].replace('<scratch>', sb.top)
+            p = case['path'].replace('<scratch>', sb.top)
+            b = (Swift if case['writer'] == 'swift_writer' else Spaces)(root, [])
+            outcome = 'written'
+            try:
+                if case['writer'] == 'output_to_relative_path':
+                    with b.output_to_relative_path(p):
+                        b.emit('x')
+                elif case['writer'] == 'swift_writer':
+                    b._write_output_in_target_folder('x\n', p)
+                else:
+                    b.copy_to_path(sb.src, os.path.join(root, p))
+            except AssertionError:
+                outcome = 'refused'
+            except OSError:
+                outcome = 'ioerror'
+            nf, nd = sb.diff()
+            bad = [x for x in nf + nd if not sb.inside_out(x)]
+            if bad or (outcome == 'refused' and (nf or nd)):
+                ck.failing_input('replayed: %s' % rec.get('what'), rec.get('signature', {}), case)
+        finally:
+            os.chdir(home)
+    elif suite == 'manifest_backends':
+        top = os.path.realpath(core.scratch('stone-verif-c18-replay-'))
+        spec = dict(load_specs())[case['spec']]
+        template = any(a == 't.template' for a in case['args'])
+        real = run_backend_once(top, case['backend'], case['args'], spec, template, False)
+        man = run_backend_once(top, case['backend'], case['args'], spec, template, True)
+        backend_oracle(ck, {k: case[k] for k in ('suite', 'backend', 'args', 'spec')}, real, man)
+    else:
+        print('(no re-evaluation for this kind of record; the failing input is shown above)')
+        return 0
+    failed = len(ck.violations) > before or bool(ck.known_hits)
+    print('replay: the recorded input %s on %s' % ('STILL FAILS' if failed else 'no longer fails', core.REPO))
+    return 1 if failed else 0
